@@ -85,8 +85,9 @@ fn battery() -> Vec<Q> {
         q("matcher-key-state", r#"FIND(?c.id) WHERE { ?c CONCEPT {state: "active"} }"#),
         q("matcher-key-state", r#"FIND(?c.id) WHERE { ?c CONCEPT {state: "archived"} }"#),
         q("matcher-key-state", r#"FIND(?c.id) WHERE { ?c CONCEPT {state: "merged"} }"#),
-        q("matcher-key-state", r#"FIND(?c.id) WHERE { ?c CONCEPT {id: "C-3", state: "tombstoned"} }"#),
         q("concept-by-id", r#"FIND(?c) WHERE { ?c CONCEPT {id: "C-2"} }"#),
+        q("id-with-indexed-key", r#"FIND(?c.id) WHERE { ?c CONCEPT {id: "C-3", state: "tombstoned"} }"#),
+        q("id-with-indexed-key", r#"FIND(?c.id, ?c.name) WHERE { ?c CONCEPT {id: "C-1", name: "Ann"} }"#),
         // tuple patterns
         q("tuple-fixed-predicate", r#"FIND(?p, ?s.name, ?o) WHERE { ?p PROPOSITION (?s, "prefers", ?o) }"#),
         q("tuple-predicate-variable", r#"FIND(?p.id, ?pr, ?o) WHERE { ?s CONCEPT {key: "a"} ?p PROPOSITION (?s, ?pr, ?o) }"#),
@@ -119,8 +120,8 @@ fn battery() -> Vec<Q> {
         q("facet-path", r#"FIND(?c.id, ?c.facets["MnemonicState"].memory_strength) WHERE { ?c CONCEPT {key: "n"} }"#),
         qt("filter-function-limit", r#"FIND(?c.id) WHERE { ?c CONCEPT {} FILTER(STARTS_WITH(?c.name, "A") || ?c.name == "Bob") }"#, " ORDER BY ?c.id LIMIT 2"),
     ];
-    for i in [3usize, 17, 26] {
-        out[i].all_coordinates = true;
+    for q in out.iter_mut() {
+        q.all_coordinates = matches!(q.family, "concept-all" | "assertion-all" | "belief-all");
     }
     out
 }
@@ -197,6 +198,18 @@ fn payload(view: &Json, keys: &[&str]) -> Json {
     Json::Object(out)
 }
 
+/// Every history here is committed statements from the seeded Space, so the
+/// ids are fixed: a = C-1, b = C-2, d = C-3, n = C-4, (a prefers d) = P-1,
+/// its supporting Assertion = A-1.
+fn fixed_params() -> Map<String, Json> {
+    let mut out = Map::new();
+    for (name, id) in [("a", "C-1"), ("b", "C-2"), ("d", "C-3"), ("p", "P-1"), ("as1", "A-1")] {
+        out.insert(name.to_string(), Json::String(id.to_string()));
+        out.insert(format!("{name}_ref"), json!({"id": id}));
+    }
+    out
+}
+
 fn step_stmt(text: &str, params: Map<String, Json>) -> Stmt {
     Stmt { text: text.to_string(), params, mode: Mode::Commit, who: Who::System }
 }
@@ -205,7 +218,7 @@ fn replay_json(path: &[usize], steps: &[StepDef]) -> Json {
     json!({
         "world": "seeded",
         "path": path.iter().map(|i| steps[*i].name).collect::<Vec<_>>(),
-        "note": "statements as in c18_hist::alphabet(); parameters re-resolved from the state before each statement",
+        "note": "statements as in c18_hist::alphabet(); parameters as in c18_hist::fixed_params()",
     })
 }
 
@@ -227,8 +240,7 @@ fn run_path(content: &Content, path: &[usize], steps: &[StepDef], battery: &[Q])
         let last = i + 1 == path.len();
         let outcome = match steps[s].op {
             Op::Kml(text) => {
-                let now = dump::elements(&nx, None);
-                let (_, outcome) = nx.exec(&step_stmt(text, dump::params_from(&now)));
+                let (_, outcome) = nx.exec(&step_stmt(text, fixed_params()));
                 outcome
             }
             Op::ToggleSchema => match nx.activate(!ext_active) {
